@@ -22,7 +22,7 @@ def cmd_targets(spec):
     """labels of targets whose build runs a logged command"""
     r = set()
     for p, t in rs.all_targets(spec):
-        if t["kind"] in ("genrule",) or (t["kind"] == "gentest" and t.get("outs")):
+        if t["kind"] in ("genrule",) or (t["kind"] == "gentest" and (t.get("outs") or t.get("test_cmd") == "@TEST@")):
             r.add(rs.label(p, t["name"]))
     if spec.get("defs"):
         r.add("//defs:gen")
@@ -73,7 +73,7 @@ def read_trace_file(path):
         return None
 
 
-def oracle_c04(spec, req, res, log, tf_events, fresh=True, query=False):
+def oracle_c04(spec, req, res, log, tf_events, fresh=True, query=False, test=False):
     """Returns list of (class, detail)."""
     v = []
     cmds = cmd_targets(spec)
@@ -99,6 +99,8 @@ def oracle_c04(spec, req, res, log, tf_events, fresh=True, query=False):
         v.append(("unexpected-exit", "exit code %d on a buildable repository; stderr tail: %s" % (res.exit, res.stderr[-800:])))
     else:
         want = [l for l in request_closure(spec, req) if l in cmds]
+        if not test:
+            want = [l for l in want if (rs.find_target(spec, l) or (None, {"kind": "genrule"}))[1]["kind"] != "gentest"]
         if fresh:
             for l in want:
                 if l not in starts:
@@ -148,11 +150,26 @@ def gen_case_c04(seed, tier):
     ts = rs.all_targets(spec)
     if rng.chance(0.3) and len(ts) >= 3:
         add_require_provide(rng, spec)
+    tests = []
+    if rng.chance(0.3):
+        # a few tests whose data are targets of the DAG: `plz test` must run each test command once, after
+        # everything it needs has been built
+        for k in range(rng.rng(1, 3)):
+            (dp, dt) = rng.choice([x for x in rs.all_targets(spec) if x[1]["kind"] != "gentest"])
+            pkg = rng.choice(sorted(spec["pkgs"]))
+            name = "t%d" % (100 + k)
+            spec["pkgs"][pkg]["targets"].append({"name": name, "kind": "gentest", "srcs": [], "deps": [], "outs": [], "salt": "t", "data": ["t:" + rs.label(dp, dt["name"])], "test_cmd": "@TEST@"})
+            tests.append(rs.label(pkg, name))
     req = pick_request(rng, spec)
     nrun = 3 if tier == "quick" else 8
     runs = []
     for j in range(nrun):
         threads = rng.choice([1, 2, 3, 4, 8, 16])
+        if tests and rng.chance(0.6):
+            # (for `plz test`, -n is the number of test runs; threads need the long flag)
+            args = ["test"] + (tests if rng.chance(0.5) else ["//..."]) + BASE_ARGS + ["--num_threads", str(threads)]
+            runs.append({"args": args, "seed": subseed(seed, "run%d" % j), "policy": "", "num_stalls": 0, "mode": "test"})
+            continue
         if spec.get("defs") and rng.chance(0.35):
             # a query builds only what parsing needs (subincluded targets and their dependencies); the
             # same ordering rules apply to those builds
@@ -219,7 +236,12 @@ def exec_case_c04(bindir, case, only_run=None):
         log = sc.path("log")
         os.makedirs(repo)
         os.makedirs(sc.path("home"))
-        rs.materialise(spec, repo, log)
+        mspec = rs.clone(spec)
+        for p_, t_ in rs.all_targets(mspec):
+            if t_["kind"] == "gentest" and t_.get("test_cmd") == "@TEST@":
+                lab_ = rs.label(p_, t_["name"])
+                t_["test_cmd"] = 'echo "S %s" >> %s; ls $DATA > /dev/null; echo "E %s ok" >> %s' % (lab_, log, lab_, log)
+        rs.materialise(mspec, repo, log)
         for j, run in enumerate(case["runs"]):
             if only_run is not None and j != only_run:
                 continue
@@ -228,7 +250,8 @@ def exec_case_c04(bindir, case, only_run=None):
                 os.remove(log)
             tf = sc.path("tf%d.json" % j)
             is_query = run["args"][0] == "query"
-            res = run_plz(bindir, repo, run["args"] + ([] if is_query else ["--trace_file", tf]), run["seed"], sc.path("home"), sc.path("trace%d" % j),
+            is_test = run["args"][0] == "test"
+            res = run_plz(bindir, repo, run["args"] + ([] if (is_query or is_test) else ["--trace_file", tf]), run["seed"], sc.path("home"), sc.path("trace%d" % j),
                           policy=run.get("policy", ""), choices=run.get("choices"), stalls=run.get("stalls"),
                           num_stalls=run.get("num_stalls", 0), horizon=run.get("horizon", 0))
             if res.exit == simlib.EXIT_HANG:
@@ -237,7 +260,13 @@ def exec_case_c04(bindir, case, only_run=None):
                 run2["stalls"] = res.stalls()
                 out.append(("hang", "simulated invocation did not terminate: %s" % res.sim_fail, j, run2))
                 break
-            vs = oracle_c04(espec, case["req"], res, read_log(log), None if is_query else read_trace_file(tf), fresh=not is_query, query=is_query)
+            treq = case["req"]
+            if is_test:
+                # `plz test` builds the requested TESTS and what they need, nothing else
+                treq = [l for l in rs.expand_request(espec, [a for a in run["args"][1:] if a.startswith("//")])
+                        if (rs.find_target(espec, l) or (None, {"kind": ""}))[1]["kind"] == "gentest"]
+            vs = oracle_c04(espec, treq, res, read_log(log), None if (is_query or is_test) else read_trace_file(tf), fresh=not is_query, query=is_query, test=is_test)
+            stats["test_runs"] = stats.get("test_runs", 0) + (1 if is_test else 0)
             st = res.stats
             stats["query_runs"] = stats.get("query_runs", 0) + (1 if is_query else 0)
             stats["sched_steps"] += st.get("steps", 0)
